@@ -490,6 +490,17 @@ Example C13_tree_item_uri_hypotheses :
              DefTree.Ans (HierTree.ROk [it]) /\ HierTree.i_uri it = #"aKb".
 Proof. exact HierTreeWitness.ht_item_uri_hypotheses. Qed.
 
+(* the well-formed-ranges premise (C08's NodeWf) holds on the real dumps, and through C13_tree_item_ranges every item
+   prepared anywhere in aKb.god has its selection range inside its range *)
+Example C13_tree_ws_nodewf :
+  Forall (fun d => RangeTop.Forall_nodes (RangeTop.NodeWf 10%N) (snd d)) HierTreeWitness.ht_ws.
+Proof. exact HierTreeWitness.ht_ws_nodewf. Qed.
+
+Example C13_tree_ws_item_ranges_inside :
+  forall p it, HierTree.prepare HierTreeWitness.ht_ws (#"aKb", HierTreeWitness.ht_kb) p = DefTree.Ans (HierTree.ROk [it]) ->
+    RangeBase.inside (HierTree.i_sel it) (HierTree.i_range it).
+Proof. exact HierTreeWitness.ht_item_ranges_via_nodewf. Qed.
+
 Print Assumptions C13_tree_input_refines.
 Print Assumptions C13_tree_relation.
 Print Assumptions C13_tree_class_super.
@@ -512,3 +523,5 @@ Print Assumptions C13_tree_item_uri_any.
 Print Assumptions C13_tree_item_uri.
 Print Assumptions C13_old_class_item_uri_refuted.
 Print Assumptions C13_tree_item_uri_hypotheses.
+Print Assumptions C13_tree_ws_nodewf.
+Print Assumptions C13_tree_ws_item_ranges_inside.
